@@ -14,27 +14,21 @@ theorem cacheOK_nil (cfg : Cfg) : CacheOK cfg [] := by intro k hk; cases hk
 
 theorem cacheLookup_val {cfg : Cfg} {c : Cache} (h : CacheOK cfg c) (k : Nat × Nat) :
     (cacheLookup cfg c k).2 = cfg.scan k := by
-  unfold cacheLookup
-  by_cases hc : c.contains k = true
-  · simp only [hc, if_true]
-    have : k ∈ c := by simpa using hc
-    exact (h k this).symm
-  · simp only [hc]
-    by_cases hs : cfg.scan k = true <;> simp [hs]
+  by_cases hc : k ∈ c
+  · simp [cacheLookup, hc, h k hc]
+  · by_cases hs : cfg.scan k = true <;> simp [cacheLookup, hc, hs]
 
 theorem cacheLookup_ok {cfg : Cfg} {c : Cache} (h : CacheOK cfg c) (k : Nat × Nat) :
     CacheOK cfg (cacheLookup cfg c k).1 := by
-  unfold cacheLookup
-  by_cases hc : c.contains k = true
-  · simpa [hc] using h
-  · simp only [hc]
-    by_cases hs : cfg.scan k = true
-    · simp only [hs, if_true]
+  by_cases hc : k ∈ c
+  · simpa [cacheLookup, hc] using h
+  · by_cases hs : cfg.scan k = true
+    · simp only [cacheLookup, List.contains_eq_mem, hc, decide_false, hs, if_true, Bool.false_eq_true, if_false]
       intro k' hk'
       rcases List.mem_cons.mp hk' with rfl | hk'
       · exact hs
       · exact h k' hk'
-    · simpa [hs] using h
+    · simpa [cacheLookup, hc, hs] using h
 
 /-! ### a local step does not depend on what the cache contains -/
 
@@ -92,5 +86,568 @@ theorem lstep_spec {cfg : Cfg} {c : Cache} (h : CacheOK cfg c) (t : Tid) (op : L
   · cases op <;> first
       | (simp [lstep, lstepSpec, hr, h]; done)
       | (simp only [lstep, lstepSpec]; split <;> exact ⟨rfl, h⟩)
+
+
+/-! ### solo runs -/
+
+/-- thread `u` alone, with the class cache replaced by its specification -/
+def soloSpec (cfg : Cfg) (u : Tid) : List Act → TS → TS × List Out
+  | [], ts => (ts, [])
+  | .op o :: as, ts =>
+    let r := lstepSpec cfg u o ts
+    let r2 := soloSpec cfg u as r.1
+    (r2.1, r.2 :: r2.2)
+  | .born :: as, ts => soloSpec cfg u as (if ts.phase = .unborn then { ts with phase := .ready } else ts)
+
+theorem solo_eq_spec (cfg : Cfg) (u : Tid) (as : List Act) :
+    ∀ (c : Cache) (ts : TS), CacheOK cfg c → solo cfg u as c ts = soloSpec cfg u as ts := by
+  induction as with
+  | nil => intro c ts _; rfl
+  | cons a as ih =>
+    intro c ts hc
+    cases a with
+    | born => simp only [solo, soloSpec]; exact ih c _ hc
+    | op o =>
+      have h := lstep_spec hc u o ts
+      simp only [solo, soloSpec]
+      rw [ih _ _ h.2, ← h.1]
+
+/-! ### frame lemmas for one step -/
+
+theorem upd_same {α : Type} (f : Nat → α) (i : Nat) (v : α) : upd f i v i = v := by simp [upd]
+theorem upd_other {α : Type} (f : Nat → α) (i j : Nat) (v : α) (h : j ≠ i) : upd f i v j = f j := by simp [upd, h]
+
+/-- a synchronisation event other than `spawn` touches no thread component and not the class cache -/
+theorem step_sync_frame (cfg : Cfg) (g : G) (e : Ev) (h1 : ∀ t op, e ≠ .loc t op) (h2 : ∀ t v, e ≠ .spawn t v) :
+    (step cfg g e).1.thr = g.thr ∧ (step cfg g e).1.cache = g.cache := by
+  cases e with
+  | loc t op => exact absurd rfl (h1 t op)
+  | spawn t v => exact absurd rfl (h2 t v)
+  | join t u =>
+    simp only [step]
+    split
+    · exact ⟨rfl, rfl⟩
+    · split
+      · exact ⟨rfl, rfl⟩
+      · split <;> exact ⟨rfl, rfl⟩
+      · exact ⟨rfl, rfl⟩
+  | lock t m => simp only [step]; split; exact ⟨rfl, rfl⟩; split <;> exact ⟨rfl, rfl⟩
+  | trylock t m => simp only [step]; split; exact ⟨rfl, rfl⟩; split <;> exact ⟨rfl, rfl⟩
+  | unlock t m => simp only [step]; split; exact ⟨rfl, rfl⟩; split <;> exact ⟨rfl, rfl⟩
+  | winc t m c => simp only [step]; split; exact ⟨rfl, rfl⟩; split <;> exact ⟨rfl, rfl⟩
+  | ld t c => simp only [step]; split <;> exact ⟨rfl, rfl⟩
+  | st t c => simp only [step]; split <;> exact ⟨rfl, rfl⟩
+  | rd t u => simp only [step]; split <;> exact ⟨rfl, rfl⟩
+
+theorem step_loc (cfg : Cfg) (g : G) (t : Tid) (op : LOp) :
+    step cfg g (.loc t op) =
+      ({ g with thr := upd g.thr t (lstep cfg t g.cache op (g.thr t)).1, cache := (lstep cfg t g.cache op (g.thr t)).2.1 },
+       (lstep cfg t g.cache op (g.thr t)).2.2) := by
+  simp only [step]
+
+/-- `spawn` changes at most the phase of its target, from `unborn` to `ready`, and only then reports `spawned` -/
+theorem step_spawn (cfg : Cfg) (g : G) (t v : Tid) :
+    ((step cfg g (.spawn t v)).2 = .spawned ∧ (g.thr v).phase = .unborn ∧
+       (step cfg g (.spawn t v)).1 = { g with thr := upd g.thr v { g.thr v with phase := .ready } }) ∨
+    ((step cfg g (.spawn t v)).2 ≠ .spawned ∧ (step cfg g (.spawn t v)).1 = g) := by
+  simp only [step]
+  split
+  · right; exact ⟨by simp, rfl⟩
+  · split
+    · left; rename_i h; exact ⟨rfl, h, rfl⟩
+    · right; exact ⟨by simp, rfl⟩
+
+
+/-! ### the projection lemma -/
+
+theorem run_cons (cfg : Cfg) (e : Ev) (s : List Ev) (g : G) :
+    run cfg (e :: s) g =
+      ((run cfg s (step cfg g e).1).1, (e, (step cfg g e).2) :: (run cfg s (step cfg g e).1).2) := by
+  simp [run]
+
+theorem run_nil (cfg : Cfg) (g : G) : run cfg [] g = (g, []) := rfl
+
+/-- events that are neither local operations nor `spawn` are invisible to `proj` and `localOuts` -/
+theorem proj_sync (u : Tid) (e : Ev) (o : Out) (tr : List (Ev × Out))
+    (h1 : ∀ t op, e ≠ .loc t op) (h2 : ∀ t v, e ≠ .spawn t v) :
+    proj u ((e, o) :: tr) = proj u tr ∧ localOuts u ((e, o) :: tr) = localOuts u tr := by
+  cases e with
+  | loc t op => exact absurd rfl (h1 t op)
+  | spawn t v => exact absurd rfl (h2 t v)
+  | _ => exact ⟨rfl, rfl⟩
+
+theorem run_proj (cfg : Cfg) (u : Tid) (s : List Ev) : ∀ g : G, CacheOK cfg g.cache →
+    (run cfg s g).1.thr u = (soloSpec cfg u (proj u (run cfg s g).2) (g.thr u)).1 ∧
+    localOuts u (run cfg s g).2 = (soloSpec cfg u (proj u (run cfg s g).2) (g.thr u)).2 ∧
+    CacheOK cfg (run cfg s g).1.cache := by
+  induction s with
+  | nil => intro g hc; exact ⟨rfl, rfl, hc⟩
+  | cons e s ih =>
+    intro g hc
+    rw [run_cons]
+    cases e with
+    | loc t op =>
+      have hs := lstep_spec hc t op (g.thr t)
+      rw [step_loc]
+      have ih' := ih { g with thr := upd g.thr t (lstep cfg t g.cache op (g.thr t)).1,
+                              cache := (lstep cfg t g.cache op (g.thr t)).2.1 } hs.2
+      by_cases htu : t = u
+      · subst htu
+        simp only [upd_same] at ih'
+        have h1 : (lstep cfg t g.cache op (g.thr t)).1 = (lstepSpec cfg t op (g.thr t)).1 := by rw [← hs.1]
+        have h2 : (lstep cfg t g.cache op (g.thr t)).2.2 = (lstepSpec cfg t op (g.thr t)).2 := by rw [← hs.1]
+        simp only [proj, localOuts, if_true, soloSpec]
+        rw [← h1, ← h2]
+        exact ⟨ih'.1, by rw [ih'.2.1], ih'.2.2⟩
+      · have hut : u ≠ t := fun h => htu h.symm
+        simp only [upd_other _ _ _ _ hut] at ih'
+        simp only [proj, localOuts, htu, if_false]
+        exact ih'
+    | spawn t v =>
+      rcases step_spawn cfg g t v with ⟨ho, hph, hg⟩ | ⟨ho, hg⟩
+      · rw [hg, ho]
+        have ih' := ih { g with thr := upd g.thr v { g.thr v with phase := .ready } } hc
+        by_cases hvu : v = u
+        · subst hvu
+          simp only [upd_same] at ih'
+          simp only [proj, localOuts, if_true, soloSpec, hph]
+          exact ih'
+        · have huv : u ≠ v := fun h => hvu h.symm
+          simp only [upd_other _ _ _ _ huv] at ih'
+          simp only [proj, localOuts, hvu, if_false]
+          exact ih'
+      · rw [hg]
+        have ih' := ih g hc
+        have hp : proj u ((Ev.spawn t v, (step cfg g (.spawn t v)).2) :: (run cfg s g).2) = proj u (run cfg s g).2 := by
+          generalize (step cfg g (.spawn t v)).2 = o at ho
+          cases o <;> first | rfl | exact absurd rfl ho
+        rw [hp]
+        exact ih'
+    | join t w =>
+      have hf := step_sync_frame cfg g (.join t w) (by intros; simp) (by intros; simp)
+      have hp := proj_sync u (.join t w) (step cfg g (.join t w)).2 (run cfg s (step cfg g (.join t w)).1).2 (by intros; simp) (by intros; simp)
+      have ih' := ih (step cfg g (.join t w)).1 (by rw [hf.2]; exact hc)
+      rw [hp.1, hp.2]; rw [hf.1] at ih'; exact ih'
+    | lock t m =>
+      have hf := step_sync_frame cfg g (.lock t m) (by intros; simp) (by intros; simp)
+      have hp := proj_sync u (.lock t m) (step cfg g (.lock t m)).2 (run cfg s (step cfg g (.lock t m)).1).2 (by intros; simp) (by intros; simp)
+      have ih' := ih (step cfg g (.lock t m)).1 (by rw [hf.2]; exact hc)
+      rw [hp.1, hp.2]; rw [hf.1] at ih'; exact ih'
+    | trylock t m =>
+      have hf := step_sync_frame cfg g (.trylock t m) (by intros; simp) (by intros; simp)
+      have hp := proj_sync u (.trylock t m) (step cfg g (.trylock t m)).2 (run cfg s (step cfg g (.trylock t m)).1).2 (by intros; simp) (by intros; simp)
+      have ih' := ih (step cfg g (.trylock t m)).1 (by rw [hf.2]; exact hc)
+      rw [hp.1, hp.2]; rw [hf.1] at ih'; exact ih'
+    | unlock t m =>
+      have hf := step_sync_frame cfg g (.unlock t m) (by intros; simp) (by intros; simp)
+      have hp := proj_sync u (.unlock t m) (step cfg g (.unlock t m)).2 (run cfg s (step cfg g (.unlock t m)).1).2 (by intros; simp) (by intros; simp)
+      have ih' := ih (step cfg g (.unlock t m)).1 (by rw [hf.2]; exact hc)
+      rw [hp.1, hp.2]; rw [hf.1] at ih'; exact ih'
+    | winc t m c =>
+      have hf := step_sync_frame cfg g (.winc t m c) (by intros; simp) (by intros; simp)
+      have hp := proj_sync u (.winc t m c) (step cfg g (.winc t m c)).2 (run cfg s (step cfg g (.winc t m c)).1).2 (by intros; simp) (by intros; simp)
+      have ih' := ih (step cfg g (.winc t m c)).1 (by rw [hf.2]; exact hc)
+      rw [hp.1, hp.2]; rw [hf.1] at ih'; exact ih'
+    | ld t c =>
+      have hf := step_sync_frame cfg g (.ld t c) (by intros; simp) (by intros; simp)
+      have hp := proj_sync u (.ld t c) (step cfg g (.ld t c)).2 (run cfg s (step cfg g (.ld t c)).1).2 (by intros; simp) (by intros; simp)
+      have ih' := ih (step cfg g (.ld t c)).1 (by rw [hf.2]; exact hc)
+      rw [hp.1, hp.2]; rw [hf.1] at ih'; exact ih'
+    | st t c =>
+      have hf := step_sync_frame cfg g (.st t c) (by intros; simp) (by intros; simp)
+      have hp := proj_sync u (.st t c) (step cfg g (.st t c)).2 (run cfg s (step cfg g (.st t c)).1).2 (by intros; simp) (by intros; simp)
+      have ih' := ih (step cfg g (.st t c)).1 (by rw [hf.2]; exact hc)
+      rw [hp.1, hp.2]; rw [hf.1] at ih'; exact ih'
+    | rd t w =>
+      have hf := step_sync_frame cfg g (.rd t w) (by intros; simp) (by intros; simp)
+      have hp := proj_sync u (.rd t w) (step cfg g (.rd t w)).2 (run cfg s (step cfg g (.rd t w)).1).2 (by intros; simp) (by intros; simp)
+      have ih' := ih (step cfg g (.rd t w)).1 (by rw [hf.2]; exact hc)
+      rw [hp.1, hp.2]; rw [hf.1] at ih'; exact ih'
+
+
+theorem run_append (cfg : Cfg) (s1 s2 : List Ev) : ∀ g : G,
+    run cfg (s1 ++ s2) g = ((run cfg s2 (run cfg s1 g).1).1, (run cfg s1 g).2 ++ (run cfg s2 (run cfg s1 g).1).2) := by
+  induction s1 with
+  | nil => intro g; simp [run_nil]
+  | cons e s1 ih => intro g; simp only [List.cons_append, run_cons, ih]
+
+/-! ### the Mutex machine: the holder is the unique thread inside -/
+
+/-- 1 when `h` is thread `t`, else 0 -/
+def ind (h : Option Tid) (t : Tid) : Int := if h = some t then 1 else 0
+
+theorem inside_cons (t : Tid) (m : Nat) (x : Ev × Out) (tr : List (Ev × Out)) :
+    inside t m (x :: tr) = inside t m [x] + inside t m tr := by
+  rcases x with ⟨e, o⟩
+  cases e <;> cases o <;> first
+    | (simp [inside]; done)
+    | (rename_i b; cases b <;> simp [inside]; done)
+
+theorem step_inside (cfg : Cfg) (g : G) (e : Ev) (t : Tid) (m : Nat) :
+    ind (g.holder m) t + inside t m [(e, (step cfg g e).2)] = ind ((step cfg g e).1.holder m) t := by
+  cases e with
+  | loc t' op => simp [step, inside]
+  | spawn t' v =>
+    simp only [step]
+    split
+    · simp [inside]
+    · split <;> simp [inside]
+  | join t' u =>
+    simp only [step]
+    split
+    · simp [inside]
+    · split
+      · simp [inside]
+      · split <;> simp [inside]
+      · simp [inside]
+  | rd t' u => simp only [step]; split <;> simp [inside]
+  | ld t' c => simp only [step]; split <;> simp [inside]
+  | st t' c => simp only [step]; split <;> simp [inside]
+  | winc t' m' c =>
+    simp only [step]
+    split
+    · simp [inside]
+    · split <;> simp [inside]
+  | lock t' m' =>
+    simp only [step]
+    split
+    · simp [inside]
+    · split
+      · rename_i hh
+        by_cases hm : m = m'
+        · subst hm; simp [inside, ind, upd, hh, eq_comm]
+        · have : ¬ m' = m := fun h => hm h.symm
+          simp [inside, ind, upd, hm, this]
+      · simp [inside]
+  | trylock t' m' =>
+    simp only [step]
+    split
+    · simp [inside]
+    · split
+      · rename_i hh
+        by_cases hm : m = m'
+        · subst hm; simp [inside, ind, upd, hh, eq_comm]
+        · have : ¬ m' = m := fun h => hm h.symm
+          simp [inside, ind, upd, hm, this]
+      · simp [inside]
+  | unlock t' m' =>
+    simp only [step]
+    split
+    · simp [inside]
+    · split
+      · rename_i hh
+        by_cases hm : m = m'
+        · subst hm
+          by_cases ht : t' = t
+          · subst ht; simp [inside, ind, upd, hh]
+          · simp [inside, ind, upd, hh, ht]
+        · have : ¬ m' = m := fun h => hm h.symm
+          simp [inside, ind, upd, hm, this]
+      · simp [inside]
+
+theorem run_inside (cfg : Cfg) (t : Tid) (m : Nat) (s : List Ev) : ∀ g : G,
+    ind (g.holder m) t + inside t m (run cfg s g).2 = ind ((run cfg s g).1.holder m) t := by
+  induction s with
+  | nil => intro g; simp [run_nil, inside]
+  | cons e s ih =>
+    intro g
+    rw [run_cons]
+    simp only []
+    rw [inside_cons, ← ih (step cfg g e).1, ← step_inside cfg g e t m]
+    omega
+
+
+theorem run_inside_init (cfg : Cfg) (t : Tid) (m : Nat) (s : List Ev) :
+    inside t m (run cfg s G.init).2 = if (run cfg s G.init).1.holder m = some t then 1 else 0 := by
+  have h := run_inside cfg t m s G.init
+  have h0 : ind (G.init.holder m) t = 0 := by simp [ind, G.init]
+  rw [h0] at h
+  simpa [ind] using h
+
+/-! ### a finished thread takes no more steps -/
+
+theorem lstep_not_running (cfg : Cfg) (t : Tid) (c : Cache) (op : LOp) (ts : TS) (h1 : ts.phase ≠ .running)
+    (h2 : ts.phase ≠ .ready) : lstep cfg t c op ts = (ts, c, .dead) := by
+  cases op <;> simp [lstep, h1, h2]
+
+theorem step_done (cfg : Cfg) (g : G) (e : Ev) (u : Tid) (hd : (g.thr u).phase = .done) :
+    (step cfg g e).1.thr u = g.thr u ∧ (e.tid = u → (step cfg g e).2 = .dead) := by
+  have hnr : running g u = false := by simp [running, hd]
+  cases e with
+  | loc t op =>
+    rw [step_loc]
+    by_cases htu : t = u
+    · subst htu
+      rw [lstep_not_running cfg t g.cache op (g.thr t) (by simp [hd]) (by simp [hd])]
+      simp [upd_same]
+    · have : u ≠ t := fun h => htu h.symm
+      simp [upd_other _ _ _ _ this, Ev.tid, htu]
+  | spawn t v =>
+    rcases step_spawn cfg g t v with ⟨_, hph, hg⟩ | ⟨_, hg⟩
+    · by_cases hvu : v = u
+      · subst hvu; rw [hd] at hph; cases hph
+      · have huv : u ≠ v := fun h => hvu h.symm
+        refine ⟨(by rw [hg]; simp [upd_other _ _ _ _ huv]), ?_⟩
+        intro ht; simp only [Ev.tid] at ht; subst ht; simp [step, hnr]
+    · refine ⟨(by rw [hg]), ?_⟩
+      intro ht; simp only [Ev.tid] at ht; subst ht; simp [step, hnr]
+  | join t w =>
+    refine ⟨by rw [(step_sync_frame cfg g (.join t w) (by intros; simp) (by intros; simp)).1], ?_⟩
+    intro ht; simp only [Ev.tid] at ht; subst ht; simp [step, hnr]
+  | lock t m =>
+    refine ⟨by rw [(step_sync_frame cfg g (.lock t m) (by intros; simp) (by intros; simp)).1], ?_⟩
+    intro ht; simp only [Ev.tid] at ht; subst ht; simp [step, hnr]
+  | trylock t m =>
+    refine ⟨by rw [(step_sync_frame cfg g (.trylock t m) (by intros; simp) (by intros; simp)).1], ?_⟩
+    intro ht; simp only [Ev.tid] at ht; subst ht; simp [step, hnr]
+  | unlock t m =>
+    refine ⟨by rw [(step_sync_frame cfg g (.unlock t m) (by intros; simp) (by intros; simp)).1], ?_⟩
+    intro ht; simp only [Ev.tid] at ht; subst ht; simp [step, hnr]
+  | winc t m c =>
+    refine ⟨by rw [(step_sync_frame cfg g (.winc t m c) (by intros; simp) (by intros; simp)).1], ?_⟩
+    intro ht; simp only [Ev.tid] at ht; subst ht; simp [step, hnr]
+  | ld t c =>
+    refine ⟨by rw [(step_sync_frame cfg g (.ld t c) (by intros; simp) (by intros; simp)).1], ?_⟩
+    intro ht; simp only [Ev.tid] at ht; subst ht; simp [step, hnr]
+  | st t c =>
+    refine ⟨by rw [(step_sync_frame cfg g (.st t c) (by intros; simp) (by intros; simp)).1], ?_⟩
+    intro ht; simp only [Ev.tid] at ht; subst ht; simp [step, hnr]
+  | rd t w =>
+    refine ⟨by rw [(step_sync_frame cfg g (.rd t w) (by intros; simp) (by intros; simp)).1], ?_⟩
+    intro ht; simp only [Ev.tid] at ht; subst ht; simp [step, hnr]
+
+theorem run_done (cfg : Cfg) (u : Tid) (s : List Ev) : ∀ g : G, (g.thr u).phase = .done →
+    (run cfg s g).1.thr u = g.thr u ∧ ∀ eo ∈ (run cfg s g).2, eo.1.tid = u → eo.2 = .dead := by
+  induction s with
+  | nil => intro g _; exact ⟨rfl, (by intro eo h; cases h)⟩
+  | cons e s ih =>
+    intro g hd
+    have hs := step_done cfg g e u hd
+    have ih' := ih (step cfg g e).1 (by rw [hs.1]; exact hd)
+    rw [run_cons]
+    refine ⟨by rw [ih'.1, hs.1], ?_⟩
+    intro eo hmem
+    rcases List.mem_cons.mp hmem with rfl | hmem
+    · exact hs.2
+    · exact ih'.2 eo hmem
+
+/-- `join` reports `joined` only for a thread whose `Thread_Init_Run` has returned; it touches no thread component -/
+theorem step_join_joined (cfg : Cfg) (g : G) (t u : Tid) (h : (step cfg g (.join t u)).2 = .joined) :
+    (g.thr u).phase = .done ∧ (step cfg g (.join t u)).1.thr = g.thr := by
+  refine ⟨?_, (step_sync_frame cfg g (.join t u) (by intros; simp) (by intros; simp)).1⟩
+  simp only [step] at h
+  split at h
+  · cases h
+  · split at h
+    · cases h
+    · assumption
+    · cases h
+
+/-! ### a collector only ever holds, and finalises, objects of its own thread -/
+
+/-- every entry of the thread's registry and every entry of its ledger was allocated by the thread itself -/
+def Own (t : Tid) (ts : TS) : Prop :=
+  (∀ g, ts.gc = some g → ∀ e ∈ g.reg, e.1.owner = t) ∧ (∀ o ∈ ts.fin, o.owner = t)
+
+theorem GC.set_mem (g : GC) (o : Obj) (r : Bool) : ∀ e ∈ (g.set o r).reg, e ∈ g.reg ∨ e.1 = o := by
+  intro e he
+  unfold GC.set at he
+  split at he
+  · exact Or.inl he
+  · simp only [List.mem_append, List.mem_singleton] at he
+    rcases he with he | rfl
+    · exact Or.inl he
+    · exact Or.inr rfl
+
+theorem GC.setAll_mem (os : List Obj) : ∀ (g : GC), ∀ e ∈ (g.setAll os).reg, e ∈ g.reg ∨ e.1 ∈ os := by
+  induction os with
+  | nil => intro g e he; exact Or.inl he
+  | cons o os ih =>
+    intro g e he
+    simp only [GC.setAll, List.foldl_cons] at he
+    rcases ih (g.set o false) e he with h | h
+    · rcases GC.set_mem g o false e h with h | h
+      · exact Or.inl h
+      · exact Or.inr (by simp [h])
+    · exact Or.inr (by simp [h])
+
+theorem GC.rem_sub (g : GC) (o : Obj) :
+    (∀ e ∈ (g.rem o).1.reg, e ∈ g.reg) ∧ (∀ x ∈ (g.rem o).2, ∃ e ∈ g.reg, e.1 = x) := by
+  unfold GC.rem
+  split
+  · rename_i h
+    refine ⟨fun e he => (List.mem_filter.mp he).1, ?_⟩
+    intro x hx
+    simp only [List.mem_singleton] at hx
+    subst hx
+    obtain ⟨e, he, hp⟩ := List.any_eq_true.mp h
+    exact ⟨e, he, by simpa using hp⟩
+  · exact ⟨fun e he => he, fun x hx => by cases hx⟩
+
+theorem GC.sweep_sub (g : GC) (marked : List Obj) :
+    (∀ e ∈ (g.sweep marked).1.reg, e ∈ g.reg) ∧
+    (∀ x ∈ (g.sweep marked).2, ∃ e ∈ g.reg, e.1 = x ∧ e.2 = false ∧ x ∉ marked) := by
+  unfold GC.sweep
+  refine ⟨fun e he => (List.mem_filter.mp he).1, ?_⟩
+  intro x hx
+  simp only [List.mem_map, List.mem_filter] at hx
+  obtain ⟨e, ⟨he, hp⟩, rfl⟩ := hx
+  refine ⟨e, he, rfl, ?_, ?_⟩ <;> simp at hp <;> simp [hp]
+
+theorem garbage_owner (t : Tid) (a n : Nat) : ∀ o ∈ garbage t a n, o.owner = t := by
+  intro o ho
+  simp only [garbage, List.mem_map] at ho
+  obtain ⟨i, _, rfl⟩ := ho
+  rfl
+
+theorem lrun_own (cfg : Cfg) (t : Tid) (c : Cache) (op : LOp) (ts : TS) (h : Own t ts) :
+    Own t (lrun cfg t c op ts).1 := by
+  obtain ⟨hr, hf⟩ := h
+  cases op with
+  | begin_ => exact ⟨hr, hf⟩
+  | end_ =>
+    simp only [lrun]
+    cases hg : ts.gc with
+    | none => exact ⟨(by intro g h; cases h), hf⟩
+    | some g =>
+      refine ⟨(by intro g' h; cases h), ?_⟩
+      intro o ho
+      simp only [List.mem_append] at ho
+      rcases ho with ho | ho
+      · exact hf o ho
+      · obtain ⟨e, he, rfl, _⟩ := (GC.sweep_sub g []).2 o ho
+        exact hr g hg e he
+  | new k root =>
+    simp only [lrun]
+    split
+    · exact ⟨hr, hf⟩
+    · cases hg : ts.gc with
+      | none => exact ⟨hr, hf⟩
+      | some g =>
+        refine ⟨?_, hf⟩
+        intro g' h e he
+        simp only [Option.some.injEq] at h
+        subst h
+        rcases GC.set_mem g ⟨t, k⟩ root e he with h | h
+        · exact hr g hg e h
+        · rw [h]
+  | del o =>
+    simp only [lrun]
+    cases hg : ts.gc with
+    | none => exact ⟨hr, hf⟩
+    | some g =>
+      refine ⟨?_, ?_⟩
+      · intro g' h e he
+        simp only [Option.some.injEq] at h
+        subst h
+        exact hr g hg e ((GC.rem_sub g o).1 e he)
+      · intro x hx
+        simp only [List.mem_append] at hx
+        rcases hx with hx | hx
+        · exact hf x hx
+        · obtain ⟨e, he, rfl⟩ := (GC.rem_sub g o).2 x hx
+          exact hr g hg e he
+  | collect st =>
+    simp only [lrun]
+    cases hg : ts.gc with
+    | none => exact ⟨hr, hf⟩
+    | some g =>
+      refine ⟨?_, ?_⟩
+      · intro g' h e he
+        simp only [Option.some.injEq] at h
+        subst h
+        exact hr g hg e ((GC.sweep_sub g _).1 e he)
+      · intro x hx
+        simp only [List.mem_append] at hx
+        rcases hx with hx | hx
+        · exact hf x hx
+        · obtain ⟨e, he, rfl, _⟩ := (GC.sweep_sub g _).2 x hx
+          exact hr g hg e he
+  | churn n =>
+    simp only [lrun]
+    cases hg : ts.gc with
+    | none => exact ⟨hr, hf⟩
+    | some g =>
+      refine ⟨?_, hf⟩
+      intro g' h e he
+      simp only [Option.some.injEq] at h
+      subst h
+      rcases GC.setAll_mem _ g e he with h | h
+      · exact hr g hg e h
+      · exact garbage_owner t _ _ _ h
+  | tset key o => exact ⟨hr, hf⟩
+  | tget key => simp only [lrun]; split <;> exact ⟨hr, hf⟩
+  | tmem key => exact ⟨hr, hf⟩
+  | trem key => simp only [lrun]; split <;> exact ⟨hr, hf⟩
+  | exn p => simp only [lrun]; split <;> exact ⟨hr, hf⟩
+  | lookup ty cls => exact ⟨hr, hf⟩
+  | pub v => exact ⟨hr, hf⟩
+  | work a b c => exact ⟨hr, hf⟩
+  | perr f e => simp only [lrun]; cases f <;> simp only [] <;> split <;> exact ⟨hr, hf⟩
+
+theorem lstep_own (cfg : Cfg) (t : Tid) (c : Cache) (op : LOp) (ts : TS) (h : Own t ts) :
+    Own t (lstep cfg t c op ts).1 := by
+  have hl := lrun_own cfg t c op ts h
+  cases op <;> first
+    | (simp only [lstep]; split
+       · first | exact hl | (refine ⟨?_, h.2⟩; intro g hg e he; simp only [Option.some.injEq] at hg; subst hg; cases he)
+       · exact h)
+
+theorem step_own (cfg : Cfg) (g : G) (e : Ev) (h : ∀ t, Own t (g.thr t)) : ∀ t, Own t ((step cfg g e).1.thr t) := by
+  intro u
+  cases e with
+  | loc t op =>
+    rw [step_loc]
+    by_cases hut : u = t
+    · subst hut; simp only [upd_same]; exact lstep_own cfg u g.cache op (g.thr u) (h u)
+    · simp only [upd_other _ _ _ _ hut]; exact h u
+  | spawn t v =>
+    rcases step_spawn cfg g t v with ⟨_, _, hg⟩ | ⟨_, hg⟩
+    · rw [hg]
+      by_cases huv : u = v
+      · subst huv; simp only [upd_same]; exact h u
+      · simp only [upd_other _ _ _ _ huv]; exact h u
+    · rw [hg]; exact h u
+  | join t w => rw [(step_sync_frame cfg g (.join t w) (by intros; simp) (by intros; simp)).1]; exact h u
+  | lock t m => rw [(step_sync_frame cfg g (.lock t m) (by intros; simp) (by intros; simp)).1]; exact h u
+  | trylock t m => rw [(step_sync_frame cfg g (.trylock t m) (by intros; simp) (by intros; simp)).1]; exact h u
+  | unlock t m => rw [(step_sync_frame cfg g (.unlock t m) (by intros; simp) (by intros; simp)).1]; exact h u
+  | winc t m c => rw [(step_sync_frame cfg g (.winc t m c) (by intros; simp) (by intros; simp)).1]; exact h u
+  | ld t c => rw [(step_sync_frame cfg g (.ld t c) (by intros; simp) (by intros; simp)).1]; exact h u
+  | st t c => rw [(step_sync_frame cfg g (.st t c) (by intros; simp) (by intros; simp)).1]; exact h u
+  | rd t w => rw [(step_sync_frame cfg g (.rd t w) (by intros; simp) (by intros; simp)).1]; exact h u
+
+theorem run_own (cfg : Cfg) (s : List Ev) : ∀ g : G, (∀ t, Own t (g.thr t)) → ∀ t, Own t ((run cfg s g).1.thr t) := by
+  induction s with
+  | nil => intro g h; exact h
+  | cons e s ih => intro g h; rw [run_cons]; exact ih _ (step_own cfg g e h)
+
+theorem own_init : ∀ t, Own t (G.init.thr t) := by
+  intro t
+  simp only [G.init]
+  split
+  · exact ⟨(by intro g hg e he; simp [TS.main] at hg; subst hg; cases he), (by intro o ho; cases ho)⟩
+  · exact ⟨(by intro g hg; simp [TS.unborn] at hg), (by intro o ho; cases ho)⟩
+
+
+/-- once thread `u` has finished, whoever reads its published cell reads the same (final) value -/
+theorem run_rd_frozen (cfg : Cfg) (u : Tid) (s : List Ev) : ∀ g : G, (g.thr u).phase = .done →
+    ∀ eo ∈ (run cfg s g).2, ∀ r, eo.1 = .rd r u → eo.2 = .num (g.thr u).pub ∨ eo.2 = .dead := by
+  induction s with
+  | nil => intro g _ eo h; cases h
+  | cons e s ih =>
+    intro g hd eo hmem r he
+    have hs := step_done cfg g e u hd
+    rw [run_cons] at hmem
+    rcases List.mem_cons.mp hmem with rfl | hmem
+    · simp only at he
+      subst he
+      simp only [step]
+      split
+      · exact Or.inr rfl
+      · exact Or.inl rfl
+    · have := ih (step cfg g e).1 (by rw [hs.1]; exact hd) eo hmem r he
+      rw [hs.1] at this
+      exact this
 
 end Cello.Thr
